@@ -783,10 +783,38 @@ func (rp *vshReplayer) apply(op vshOp) string { //nolint:gocognit,cyclop
 
 		return done(trs[op.Idx].Stop())
 	case "dc":
-		s.dcCreated++
-		_, err := pc.CreateDataChannel(fmt.Sprintf("dc%d", s.dcCreated), nil)
+		_, err := pc.CreateDataChannel(fmt.Sprintf("dc%d", s.dcCreated+1), nil)
+		if err == nil {
+			s.dcCreated++
+		}
 
 		return done(err)
+	case "dcbad":
+		// a CreateDataChannel call that has to be refused (both reliability options set): no channel exists
+		// afterwards, so it must not make an application section appear
+		lifetime, rexmit := uint16(100), uint16(3)
+		_, err := pc.CreateDataChannel("refused", &DataChannelInit{MaxPacketLifeTime: &lifetime, MaxRetransmits: &rexmit})
+		if err == nil {
+			s.dcCreated++ // accepted after all: then it is a channel like any other
+		}
+		rp.call(op.Side, "op:dcbad", nil, -1, "")
+
+		return "ok"
+	case "los":
+		// the first half of an exchange only: CreateOffer + SetLocalDescription (the offer is applied, not yet
+		// answered); a later CreateOffer in have-local-offer has to respect what this offer fixed
+		if pc.SignalingState() != SignalingStateStable {
+			return "na"
+		}
+		d, sd, err := rp.create(s, "offer", "los")
+		if err != nil {
+			return "err:CreateOffer:" + vshErrClass(err)
+		}
+		if err = rp.setLocal(s, d, sd); err != nil {
+			return rp.abort("SLD-offer", err)
+		}
+
+		return "ok"
 	case "offer":
 		_, _, err := rp.create(s, "offer", "probe")
 		if err != nil {
@@ -927,7 +955,7 @@ func vshReplay(tb testing.TB, cs vshCase, finalProbe bool) (run *vshRun) {
 		run.Status = append(run.Status, st)
 		if cs.ProbeEvery && !run.Dead && !strings.HasPrefix(st, "na") {
 			switch op.Op {
-			case "offer", "neg", "sro", "negs":
+			case "offer", "neg", "sro", "negs", "los":
 			default:
 				_, _, _ = rp.create(rp.side(op.Side), "offer", "probe")
 			}
@@ -1322,6 +1350,9 @@ func vshSynCases(cfgs []vshCfg, quick, withUnknown bool) []vshCase { //nolint:go
 	opN := vshOp{Side: "X", Op: "negs"}
 	// a generated but never applied local offer: it hands provisional mids to the transceivers that have none
 	opO := vshOp{Side: "X", Op: "offer"}
+	// an offer applied with SetLocalDescription and left unanswered: the next CreateOffer (the final probe) runs
+	// in have-local-offer and has to keep what the applied offer fixed
+	opL := vshOp{Side: "X", Op: "los"}
 	none := [][]vshOp{{}}
 	var out []vshCase
 	for _, cfg := range cfgs {
@@ -1342,10 +1373,10 @@ func vshSynCases(cfgs []vshCfg, quick, withUnknown bool) []vshCase { //nolint:go
 					switch {
 					case n == 1 && !unknown && bundle == "" && quick:
 						pres = [][]vshOp{{}, {opA}, {opV, opV, opO}}
-						posts = vshSeqs([]vshOp{opA, opV, opD}, 0, 2)
+						posts = append(vshSeqs([]vshOp{opA, opV, opD}, 0, 2), []vshOp{opV, opL, opA}, []vshOp{opA, opL, opV, opD}, []vshOp{opD, opL, opV})
 					case n == 1 && !unknown && bundle == "":
 						pres = [][]vshOp{{}, {opA}, {opV}, {opD}, {opV, opV, opO}, {opA, opV, opO}, {opV, opO, opV}}
-						posts = vshSeqs([]vshOp{opA, opV, opD, opS}, 0, 2)
+						posts = append(vshSeqs([]vshOp{opA, opV, opD, opS}, 0, 2), []vshOp{opV, opL, opA}, []vshOp{opA, opL, opV, opD}, []vshOp{opD, opL, opV}, []vshOp{opV, opA, opL, opV})
 					case n == 1:
 						posts = [][]vshOp{{}, {opD}, {opA, opD}}
 					case n == 2 && !unknown && bundle == "" && quick:
